@@ -4,9 +4,9 @@ package taskctl
 
 import "github.com/taskctl/taskctl/pkg/runner"
 
-// VerifPollGate, if set, is called at the top of every iteration of the scheduler loop with the scheduler's task runner
-// (only compiled with the "verif" build tag). The verification harness uses it to park the loop at an iteration
-// boundary and to release exactly one iteration at a time.
+// VerifPollGate, if set, is called after the pause that ends every iteration of the scheduler loop, before the loop
+// condition is evaluated again, with the scheduler's task runner (only compiled with the "verif" build tag). The
+// verification harness uses it to park the loop at an iteration boundary and to release exactly one iteration at a time.
 var VerifPollGate func(r runner.Runner)
 
 func (s *Scheduler) verifGate() {
